@@ -38,6 +38,7 @@ type procInput struct {
 	FC       []bool   `json:"faults_const"`
 	FT       []bool   `json:"faults_test"`
 	Evs      []procEv `json:"events"`
+	Tail     int      `json:"tail_from"` // index of the first event of the fault-free recovery tail, -1 = none
 }
 
 // ---- observed trace ----
@@ -120,8 +121,11 @@ func harnessParser(raw []byte, out *cptvframe.Frame, edge int) error {
 
 func hhmm(m int) string { return fmt.Sprintf("%02d:%02d", m/60, m%60) }
 
+var tailFM, tailFC, tailFT []bool
+
 func procRun(in procInput) (steps []procStep) {
 	log.SetOutput(ioutil.Discard)
+	tailFM, tailFC, tailFT = nil, nil, nil
 	cam := testCam{4, 4, in.FPS}
 	var outs []procOut
 	var now time.Time
@@ -161,7 +165,16 @@ func procRun(in procInput) (steps []procStep) {
 	level := 1000
 	up := true
 	base := time.Date(2021, 3, 10, 0, 0, 0, 0, time.UTC)
-	for _, e := range in.Evs {
+	for ei, e := range in.Evs {
+		if in.Tail >= 0 && ei == in.Tail {
+			// recovery tail: no faults from here on (scripts are cut at what was consumed)
+			for _, sk := range []*scriptSink{sm, sc, st} {
+				if sk.pos < len(sk.faults) {
+					sk.faults = sk.faults[:sk.pos]
+				}
+			}
+			tailFM, tailFC, tailFT = sm.faults, sc.faults, st.faults
+		}
 		outs = nil
 		winAsked = false
 		step := procStep{Ev: e, ID: -1}
@@ -277,9 +290,9 @@ func procCoq(in procInput, steps []procStep) string {
 		}
 		ss = append(ss, fmt.Sprintf("(%s,%s)", ev, coqList(os)))
 	}
-	return fmt.Sprintf("mkCase (mkCfg %d %d %d %d %s) (mkW %d %d) %s %s %s %s",
+	return fmt.Sprintf("mkCase (mkCfg %d %d %d %d %s) (mkW %d %d) %s %s %s %s %s",
 		in.Preview*in.FPS+in.Trigger, in.MinSecs*in.FPS, in.MaxSecs*in.FPS, in.Trigger, coqBool(in.Const),
-		in.WinStart, in.WinEnd, coqBools(in.FM), coqBools(in.FC), coqBools(in.FT), coqList(ss))
+		in.WinStart, in.WinEnd, coqBools(in.FM), coqBools(in.FC), coqBools(in.FT), zs(in.Tail), coqList(ss))
 }
 
 // ---- generator ----
@@ -300,6 +313,7 @@ func genFaults(rng *rand.Rand, n int, p float64, allowWrite bool) []bool {
 
 func procGen(rng *rand.Rand, i int, mode string) procInput {
 	var in procInput
+	in.Tail = -1
 	in.FPS = []int{1, 1, 2, 3, 9}[rng.Intn(5)]
 	in.Preview = rng.Intn(4)
 	in.Trigger = rng.Intn(5)
@@ -461,6 +475,25 @@ func procGen(rng *rand.Rand, i int, mode string) procInput {
 		in.FM = genFaults(rng, 600, p, true)
 		in.FC = genFaults(rng, 600, p, true)
 		in.FT = genFaults(rng, 200, p, true)
+		// recovery tail: fault-free, reset-free, window open: max+1 motionless frames, then a
+		// motion run of max(1, trigger) frames
+		in.Tail = len(in.Evs)
+		ttod := int64(in.WinStart) * 60e9 % dayNs
+		for j := 0; j < maxF+1; j++ {
+			in.Evs = append(in.Evs, procEv{K: "f", M: false, Tod: ttod})
+		}
+		run := in.Trigger
+		if run < 1 {
+			run = 1
+		}
+		// the detector needs a changed frame for each motion verdict; the first frame after a
+		// motionless stretch with a level change is reported as motion
+		for j := 0; j < run; j++ {
+			in.Evs = append(in.Evs, procEv{K: "f", M: true, Tod: ttod})
+		}
+		steps := procRun(in)
+		_ = steps
+		in.FM, in.FC, in.FT = tailFM, tailFC, tailFT
 	}
 	return in
 }
@@ -533,6 +566,7 @@ func procTags(in procInput, steps []procStep) (tags []string, nontriv bool, key 
 func procRunner(mode string) propRunner {
 	return func(rng *rand.Rand, n int, tier string, emit func(Case)) {
 		var rin procInput
+		rin.Tail = -1
 		if loadReplay(&rin) {
 			steps := procRun(rin)
 			emit(Case{Coq: procCoq(rin, steps), Input: rin, Impl: steps, Key: "replay", Nontriv: true})
